@@ -621,9 +621,10 @@ impl DcpsDomainParticipant {
                 gap_submessage.writer_id(),
             );
             if let Some(writer_proxy) = dr.transport_reader.matched_writer_lookup(writer_guid) {
-                for seq_num in gap_submessage.gap_start()..gap_submessage.gap_list().base() {
-                    writer_proxy.irrelevant_change_set(seq_num)
-                }
+                writer_proxy.irrelevant_change_range(
+                    gap_submessage.gap_start(),
+                    gap_submessage.gap_list().base(),
+                );
 
                 for seq_num in gap_submessage.gap_list().set() {
                     writer_proxy.irrelevant_change_set(seq_num)
